@@ -760,7 +760,9 @@ static ColoquinteParameters genC06Params(vh::Rng &g, std::string &desc, int &eff
     }
     rl.quadraticPenalty = g.chance(1, 3) ? 0.0 : logUni(g, 1.0e-4, 1.0);
     rl.targetBlending = uni(g, -0.1, (double)0.9f);  // check(): > 0.9f is rejected
-    rl.sideMargin = g.chance(1, 2) ? 0.9 : uni(g, 0.0, 0.9);
+    // the whole range the parameter check accepts (fix 07db192: 0..100); above ~2 most rows are narrower than the two
+    // margins and are dropped, or all of them are and the unclipped rows are kept
+    rl.sideMargin = g.chance(1, 2) ? 0.9 : (g.chance(1, 6) ? uni(g, 0.9, 100.0) : uni(g, 0.0, 0.9));
     rl.coarseningLimit = logUni(g, 1.0, 1000.0);
   }
   (void)bigger;
@@ -1273,8 +1275,23 @@ static std::ofstream *digestOut = nullptr;  // "<case> <status> <loop steps> <ze
 static void oracleCase(vh::Out &out, uint64_t seed, long long k, bool bigger, const std::string &corpusFile = "") {
   Case cs;
   std::string id = "e" + std::to_string(k);
-  if (corpusFile.empty()) cs = genCase(seed, k, bigger);
-  else {
+  if (corpusFile.empty()) {
+    cs = genCase(seed, k, bigger);
+    if (k % 16 == 7) {
+      // side margins OUTSIDE the range the parameter check accepts since fix 07db192 (negative: the clipped rows would
+      // extend beyond the rows; huge: the int margin overflows).  The property speaks about accepted parameter sets: the
+      // set is either refused by ColoquinteParameters::check() (counted, nothing to demand) or the case goes on and
+      // everything the property states is demanded of it.
+      static const double outside[] = {-20.0, -3.0, -0.5, -1.0e-3, 150.0, 1.0e10};
+      double v = outside[(k / 16) % 6];
+      cs.params.global.roughLegalization.sideMargin = v;
+      cs.desc += " [sideMargin overridden to " + vc::exactDouble(v) + "]";
+      bool refused = false;
+      try { cs.params.check(); } catch (const std::exception &) { refused = true; }
+      if (refused) { out.count("e2e_side_margin_outside_accepted_range_refused_by_check"); return; }
+      out.count("e2e_side_margin_outside_documented_range_ACCEPTED_by_check");
+    }
+  } else {
     std::vector<std::string> lines = vh::readLines(corpusFile);
     cs.circ = parseCircuit(lines);
     cs.params = ColoquinteParameters(3, 0);
